@@ -435,6 +435,58 @@ func init() {
 			}
 			fmt.Fprintf(w, "\n]\n\n/-- paths blanked in some list entries but not in others (must be empty) -/\n")
 			fmt.Fprintf(w, "def partialPaths : List String := %s\n", q(partial))
+			// lists whose elements are written, and whether the original's element survives the call
+			var lists [][]string
+			seenList := map[string]bool{}
+			for _, lf := range schema {
+				key := strings.Join(lf.yaml, ".")
+				if blank[key] == 0 {
+					continue
+				}
+				for i, c := range lf.yaml {
+					if c == "[]" {
+						pre := strings.Join(lf.yaml[:i], ".")
+						if !seenList[pre] {
+							seenList[pre] = true
+							lists = append(lists, lf.yaml[:i])
+						}
+						break
+					}
+				}
+			}
+			fmt.Fprintf(w, "\n/-- lists whose elements Redacted() writes (prefix of a redacted path up to its first `[]`) -/\n")
+			fmt.Fprintf(w, "def writtenLists : List (List String) := [")
+			for i, l := range lists {
+				if i > 0 {
+					fmt.Fprint(w, ", ")
+				}
+				fmt.Fprint(w, q(l))
+			}
+			fmt.Fprintf(w, "]\n\n/-- for each of them: does a write by Redacted() leave the original's element untouched (list detached first)? -/\n")
+			fmt.Fprintf(w, "def detached : List Bool := [")
+			for i, l := range lists {
+				// every redacted leaf below this list, set in entries 0 and 1 of the original
+				var las []c35Assign
+				for _, lf := range schema {
+					key := strings.Join(lf.yaml, ".")
+					if blank[key] > 0 && strings.HasPrefix(key, strings.Join(l, ".")+".[]") {
+						for _, k := range []string{"0", "1"} {
+							loc := strings.Replace(key, "[]", k, 1)
+							if !strings.Contains(loc, "[]") {
+								las = append(las, c35Assign{loc, "Orig" + k + "secret", false})
+							}
+						}
+					}
+				}
+				cfg, twin := c35Build(las, false), c35Build(las, false)
+				_ = cfg.Redacted()
+				_ = cfg.String()
+				if i > 0 {
+					fmt.Fprint(w, ", ")
+				}
+				fmt.Fprint(w, reflect.DeepEqual(cfg, twin) && len(las) > 0)
+			}
+			fmt.Fprintf(w, "]\n")
 			fmt.Fprintf(w, "end MM.Gen.C35\n")
 		},
 	})
